@@ -1486,6 +1486,20 @@ fn parse_unary_expression(tokens: &mut Tokens) -> Result<Expression, Error>
 						location,
 					})
 				}
+				Expression::BitIntegerLiteral {
+					value,
+					value_type,
+					location: _,
+				} if value == i128::MIN as u128 =>
+				{
+					// The magnitude of i128::MIN does not fit a signed literal,
+					// but its negation does.
+					Ok(Expression::SignedIntegerLiteral {
+						value: i128::MIN,
+						value_type,
+						location,
+					})
+				}
 				expr =>
 				{
 					let expression = Expression::Unary {
